@@ -172,6 +172,80 @@ const TEMPIDS: [&str; 8] = ["\"!A0\"", "\"!A99999999999\"", "\"!D99999999999\"",
 const TYPES: [&str; 13] = ["InternalRangedSelector", "TextSelector", "AnnotationSelector", "ResourceSelector", "DataSetSelector", "DataKeySelector", "AnnotationDataSelector", "MultiSelector", "CompositeSelector", "DirectionalSelector", "Annotation", "AnnotationData", "BeginAlignedCursor"];
 
 /// line based edits of a pretty-printed JSON document (keeps the order of fields, which matters to the reader)
+/// A new annotation whose target is a complex selector made of sub-selectors that occur elsewhere in the (valid) serialisation:
+/// every combination of selector kinds under Multi / Composite / Directional, each member valid on its own.
+fn graft_complex(rng: &mut Rng, text: &str) -> Option<(String, String)> {
+    const KINDS: [&str; 6] = ["TextSelector", "ResourceSelector", "AnnotationSelector", "DataSetSelector", "DataKeySelector", "AnnotationDataSelector"];
+    let bytes = text.as_bytes();
+    let mut snippets: Vec<(&str, String)> = Vec::new();
+    for kind in KINDS {
+        let pat = format!("\"@type\": \"{}\"", kind);
+        let mut from = 0;
+        while let Some(p) = text[from..].find(&pat) {
+            let at = from + p;
+            from = at + pat.len();
+            let Some(open) = text[..at].rfind('{') else { continue };
+            // matching brace (strings may hold braces: skip over them)
+            let (mut depth, mut i, mut in_str, mut esc) = (0i32, open, false, false);
+            let mut close = None;
+            while i < bytes.len() {
+                let c = bytes[i];
+                if in_str {
+                    if esc {
+                        esc = false;
+                    } else if c == b'\\' {
+                        esc = true;
+                    } else if c == b'"' {
+                        in_str = false;
+                    }
+                } else if c == b'"' {
+                    in_str = true;
+                } else if c == b'{' {
+                    depth += 1;
+                } else if c == b'}' {
+                    depth -= 1;
+                    if depth == 0 {
+                        close = Some(i);
+                        break;
+                    }
+                }
+                i += 1;
+            }
+            if let Some(c) = close {
+                let snip = text[open..=c].to_string();
+                if !snippets.iter().any(|(_, s)| *s == snip) {
+                    snippets.push((kind, snip));
+                }
+            }
+        }
+    }
+    if snippets.len() < 2 {
+        return None;
+    }
+    rng.shuffle(&mut snippets);
+    // key and data selectors first when there are any: they are the rare members
+    snippets.sort_by_key(|(k, _)| if *k == "DataKeySelector" || *k == "AnnotationDataSelector" { 0 } else { 1 });
+    let n = 2 + rng.below(2.min(snippets.len() - 1));
+    let mut members: Vec<(&str, String)> = snippets.into_iter().take(n).collect();
+    if rng.chance(1, 2) {
+        members.reverse();
+    }
+    let complex = *rng.pick(&["MultiSelector", "CompositeSelector", "DirectionalSelector"]);
+    let ann = format!(
+        "{{\n \"@type\": \"Annotation\",\n \"@id\": \"grafted\",\n \"target\": {{\n \"@type\": \"{}\",\n \"selectors\": [\n{}\n ]\n }},\n \"data\": []\n}}",
+        complex,
+        members.iter().map(|(_, s)| s.clone()).collect::<Vec<_>>().join(",\n")
+    );
+    // the annotations array is the last field of a store
+    let end = text.rfind(']')?;
+    let before = text[..end].trim_end();
+    let sep = if before.ends_with('[') { "" } else { "," };
+    let out = format!("{}{}\n{}\n{}", before, sep, ann, &text[end..]);
+    let mut kinds: Vec<&str> = members.iter().map(|(k, _)| *k).collect();
+    kinds.sort();
+    Some((out, format!("graft-complex/{}[{}]", complex, kinds.join("+"))))
+}
+
 fn mutate_json(rng: &mut Rng, text: &str) -> (String, String) {
     let mut lines: Vec<String> = text.lines().map(|s| s.to_string()).collect();
     if lines.is_empty() {
@@ -453,6 +527,8 @@ fn gen_inputs(p: &Params, rng: &mut Rng, k: u64, out: &mut Vec<Input>) {
     cfg.allow_semicolon = false;
     cfg.max_anns = 8;
     cfg.removals = rng.chance(1, 3);
+    // key and data selectors as members of complex selectors (their canonical order is decided by a comparator of its own)
+    cfg.keydata_in_complex = rng.chance(1, 2);
     let nops = rng.range(5, 16) as usize;
     let mut h = random_history(rng, cfg, nops, 100, false);
     let per_format = if p.thorough { 14 } else { 8 };
@@ -466,6 +542,13 @@ fn gen_inputs(p: &Params, rng: &mut Rng, k: u64, out: &mut Vec<Input>) {
             let mut f = BTreeMap::new();
             f.insert("s.store.stam.json".to_string(), m);
             out.push(Input { kind: if rng.chance(1, 6) { "json-store-file".into() } else { "json-store".into() }, mutation: name, files: f, main: "s.store.stam.json".into() });
+        }
+        for _ in 0..2 {
+            if let Some((m, name)) = graft_complex(rng, &text) {
+                let mut f = BTreeMap::new();
+                f.insert("s.store.stam.json".to_string(), m);
+                out.push(Input { kind: "json-store".into(), mutation: name, files: f, main: "s.store.stam.json".into() });
+            }
         }
         // annotations as a file for annotate_from_file, single annotations for the builder parser, datasets
         if let Ok(doc) = serde_json::from_str::<Value>(&text) {
